@@ -686,6 +686,7 @@ class SimIn:
         self._err_left = None
         self.on_read = None       # hook(call ordinal) before the read's seam point
         self.error_kinds = ("EIO",)   # which OSError subclasses injected read faults cycle through
+        self._decoded_ahead = ""
 
     def fileno(self):
         return self.fd
@@ -732,7 +733,9 @@ class SimIn:
             e.sim = True
             raise e
         dec = codecs.getincrementaldecoder(self.encoding)("replace")
-        out = ""
+        # (an undecodable byte followed by a valid one decodes to two characters at once: like a text stream, read(n)
+        # hands out n of them and keeps the rest for the next call)
+        out, self._decoded_ahead = self._decoded_ahead[:n], self._decoded_ahead[n:]
         while len(out) < n:
             if not o.readable_len():
                 if out:
@@ -744,6 +747,8 @@ class SimIn:
             b = bytes(o.inq[:1])
             del o.inq[:1]
             out += dec.decode(b)
+        if len(out) > n:
+            out, self._decoded_ahead = out[:n], out[n:] + self._decoded_ahead
         self.nreads += 1
         self._err_left = None
         w.log.add("in.read", out)
